@@ -28,6 +28,21 @@ def merge_obs(onto, et, group, rep='EDXMLEvent'):
     return status, obs, merged
 
 
+def resolve_obs(onto, et, group, rep='EDXMLEvent'):
+    """the same group through EventCollection.resolve_collisions() (all instances share one sticky hash)"""
+    from edxml import EventCollection
+    from edxml.error import EDXMLMergeConflictError
+    try:
+        r = EventCollection(M.make_events(et, group, rep), ontology=onto).resolve_collisions()
+    except EDXMLMergeConflictError:
+        return ('conflict', None)
+    except Exception as e:
+        return ('exception', type(e).__name__ + ': ' + str(e)[:200])
+    if len(r) != 1:
+        return ('exception', '%d events after resolve_collisions() of one collision group' % len(r))
+    return ('ok', M.observe_event(r[0]))
+
+
 def events_from_obs(obs, tag):
     return {'props': {k: list(v) for k, v in obs['props'].items()}, 'parents': list(obs['parents']), 'tag': tag}
 
@@ -130,6 +145,14 @@ def main(argv):
             if status == 'exception':
                 ck.oracle_failures.append({'signature': 'exception/' + obs.split(':')[0], 'input': {'etype': et, 'perm_a': g, 'perm_b': g}, 'observed': obs})
                 break
+            if k < 24:
+                st_r, ob_r = resolve_obs(onto, et, g, 'EDXMLEvent' if k % 2 else 'EventElement')
+                ck.cov['evaluations'] += 1
+                if canon(et, st_r, ob_r, only_order_free=False) != canon(et, status, obs, only_order_free=False):
+                    ck.oracle_failures.append({'signature': 'resolve-collisions-differs-from-merge/%s' % (st_r if st_r != status else 'content'),
+                                               'input': {'etype': et, 'perm_a': g, 'perm_b': g},
+                                               'observed': 'resolve_collisions()=%r merge_events()=%r' % (canon(et, st_r, ob_r, False), canon(et, status, obs, False))})
+                    break
             if base is None:
                 base, base_g = c, g
             elif c != base:
